@@ -17,6 +17,15 @@ claim("C01", "The stream stack of an AKAI sample file is built by the live const
       "path are separate obligations; chains = C07, names/pairs = C05/C06.",
       XT, "DESIGN.md 2/C01")
 
+claim("C03", "MSF arithmetic, from_bin_cue's window construction for 1..4 audio tracks (symbolic MSF, extra INDEX lines, TITLE presence, any bin length), "
+      "the whole drain of a track through the real WAV encoder/transcoder over an abstract bin file, and the all-audio/data-track dispatch are each "
+      "executed symbolically and compared with the tiling stated in the property.", XT, "DESIGN.md 2/C03")
+
+claim("C12", "The real transcoder (both iterator classes, block sizing, de-interleave, byte-order steps, pad and interleave) runs on an index-map numpy stand-in; "
+      "per configuration (streams x channels x width x byte orders x host order) z3 shows for all stream lengths, block sizes and output bytes that "
+      "byte b of frame f of channel c comes from the same-numbered source channel, byte-reversed iff the orders differ, and that the frame count lies "
+      "between shortest and longest source.", XT + " on an index-map numpy stand-in", "DESIGN.md 2/C12")
+
 _pending = "check not built yet in this session (work in progress; see DESIGN.md section 2 for the planned obligations)"
 for _p in ["C01","C02","C03","C04","C05","C06","C07","C09","C10","C11","C12","C13","C14","C15","C16","C17","C18","C19","C20"]:
     if _p not in CHECKS:
